@@ -1,5 +1,5 @@
 """C07 — hash table: removed node has one owner, unreachable after a grace period (partial)."""
-from . import lfht
+from . import lfht, c09
 
 META = {
     "explanation": "Rules on _cds_lfht_del (REMOVED ≺ gc ≺ OWNER exchange, early failure without writes for an already removed node, return 0 iff the exchange shows ownership was free), "
@@ -16,5 +16,7 @@ RULES = [
     ("C07.destroy", lambda c, r: lfht.rule_destroy(c, r, "C07.destroy")),
     ("C07.sym", lambda c, r: lfht.rule_mm(c, r, "C07.sym")),
     ("C07.replace", lambda c, r: lfht.rule_replace(c, r, "C07.replace")),
+    ("C07.emptywalk", lambda c, r: lfht.rule_emptywalk(c, r, "C07.emptywalk")),
+    ("C07.partition", lambda c, r: c09.rule_partition(c, r, "C07.partition")),
 ]
 FLOORS = {}
